@@ -66,7 +66,7 @@ type h2Case struct {
 	Server h2Endpoint `json:"server"`
 	GoAway bool       `json:"goaway"`
 	OutCh  int        `json:"out_ch"` // capacity of the relay's output channels (15 = shipped value)
-	Cap    int        `json:"cap"` // per-direction link capacity in bytes (0 = simulator default): small values make the relay's writers block
+	Cap    int        `json:"cap"`    // per-direction link capacity in bytes (0 = simulator default): small values make the relay's writers block
 	WOne   int        `json:"w_one"`
 	WRand  int        `json:"w_rand"`
 }
@@ -1273,7 +1273,11 @@ func judgeH2(env *core.Env, c *h2Case, client, server *h2Peer, ids []uint32) {
 				}
 				env.Fail("h2-credit-return", feat+"/connection", "%s sent %d flow-controlled octets in total, the relay credited back %d on the connection", p.name, p.sentFCConn, p.wuRecvConn)
 			}
-			for id, sent := range p.sentFC {
+			for _, id := range ids {
+				sent, ok := p.sentFC[id]
+				if !ok {
+					continue
+				}
 				// a stream that has been closed needs no more stream credit; only open-ended accounting is compared for streams the sender finished with END_STREAM
 				if p.wuRecv[id] != sent && !streamFinished(p.sentHist[id]) {
 					env.Fail("h2-credit-return", "stream", "%s sent %d flow-controlled octets on stream %d, the relay credited back %d on that stream", p.name, sent, id, p.wuRecv[id])
